@@ -411,7 +411,7 @@ func oddities(r *sim.R) {
 	t := r.T
 	opts := []ucfg.Option{ucfg.PathSep("."), ucfg.VarExp}
 	r.Fault("odd but legal argument (table)")
-	switch k := t.Choose(7, "oddity"); k {
+	switch k := t.Choose(8, "oddity"); k {
 	case 0:
 		// a pre-filled target that points to itself
 		n := &selfRef{V: 1}
@@ -483,6 +483,30 @@ func oddities(r *sim.R) {
 		call(r, "Unpack", func() { var to struct{ A recList }; c.Unpack(&to, opts...) })
 		call(r, "Unpack", func() { var to recSlices; c.Unpack(&to, opts...) })
 		call(r, "Unpack", func() { var to struct{ A [][][]string }; c.Unpack(&to, opts...) })
+	case 7:
+		// pre-filled maps and slices that contain themselves (directly, or through a struct)
+		m := map[string]interface{}{"k": uint64(1)}
+		m["self"] = m
+		s := make([]interface{}, 2)
+		s[0], s[1] = s, m
+		if t.Bool("slice-in-map") {
+			m["list"] = s
+		}
+		c, _ := ucfg.NewFrom(map[string]interface{}{"m": map[string]interface{}{"k": uint64(2)}, "s": []interface{}{uint64(1)}}, opts...)
+		r.Tracef("Unpack into targets pre-filled with a map / slice that contains itself")
+		call(r, "Unpack", func() { ucfg.New().Unpack(&m, opts...) })
+		call(r, "Unpack", func() {
+			to := struct {
+				M map[string]interface{}
+				S []interface{}
+				X interface{}
+			}{M: m, S: s, X: m}
+			if t.Bool("settings-for-them") {
+				c.Unpack(&to, opts...)
+			} else {
+				ucfg.New().Unpack(&to, opts...)
+			}
+		})
 	case 5:
 		// a Config held by value
 		c, _ := ucfg.NewFrom(map[string]interface{}{"a": uint64(1), "c": map[string]interface{}{"x": uint64(1)}}, opts...)
